@@ -21,7 +21,8 @@ def build(tier, seed):
     qs = []
     quick = tier == "quick"
     A, B, C, D, E = b"a", b"b", b"c", b"d", b""
-    fams = [("f0", [[A, C], [B, C]]), ("f1", [[A, B, D], [B, C]]), ("f2", [[E, B], [A, B]])]
+    fams = [("f0", [[A, C], [B, C]]), ("f1", [[A, B, D], [B, C]]), ("f2", [[E, B], [A, B]]),
+            ("f7", [[A, B], [C, D]])]      # first source ends before the second begins (lookups there get no iterator from source 1)
     if not quick:
         fams += [("f3", [[A], [B], [C]]), ("f4", [[A, C], [A, C], [B]]), ("f5", [[A, b"ab"], [b"a\xff", B]])]
     for tag, src in fams:
@@ -48,6 +49,14 @@ def build(tier, seed):
             qs.append(mc.mq("range_%s_%s_%s" % (tag, q0.hex() or "e", q1.hex() or "e"), src, mode=0, kind=3, cq=q0, cq2=q1, ops="n" * (n + 2)))
         # seeks on bounded merger iterators
         qs.append(mc.mq("rangeseek_%s" % tag, src, mode=0, kind=3, cq=keys[0], cq2=keys[-1], ops="nSnn", ctgt=[keys[min(1, n - 1)]]))
+    # seek; seek; next with no next in between, for every ordered pair of targets (a source that runs dry on the
+    # first seek must be re-sought by the second)
+    src6 = [[B, C, D], [A, b"x"]]
+    t6 = [A, B, C, D, b"m", b"x", b"z"]
+    for t1 in (t6 if not quick else [b"m", C, b"z"]):
+        for t2 in (t6 if not quick else [A, C, b"m"]):
+            for pre in ("n", ""):
+                qs.append(mc.mq("seekseek_%s_%s_%s" % (pre or "0", t1.hex(), t2.hex()), src6, mode=0, ops=pre + "SSnnnn", ctgt=[t1, t2]))
     meta = {
         "functions": mc.FUNCS, "units": ["mtbl/merger.c", "libmy/heap.c", "mtbl/iter.c", "mtbl/source.c"],
         "bounds": "2..3 sources, <= 5 entries, concrete keys; every 'interesting' concrete target around the key set (each key, its predecessor/successor strings, proper prefix, one-byte extension, empty string, above everything) from every iterator position, pairs of seeks (forward then backward, same key twice), get/get_prefix/get_range through the merger source for those queries; values symbolic so merged values are decided for all values",
